@@ -179,6 +179,25 @@ known("KF27-unbuffered-modes-wrong-answers-on-cycles", ["C04"],
       "on programs with (positive) cycles the unbuffered / random-order modes can lose answers or report different probabilities than the default engine (besides the errors of KF5/KF6): results of a cycle are forwarded before the cycle is closed",
       "0.3::f. 0.1::g. ... cyclic non-ground program, documented random order: q(c1,c2) (P = 0.16) is not reported (replay: ./check C04 --seed 2)",
       match_any=[{"clause": c, "variant": v, "cyclic": True} for c in ["missing-instance", "prob", "spurious-answer", "mode-dependent"] for v in ("unbuf", "rc", "rand")])
+C27_SITES = [('AttributeError', 'clausedb.py:_compile'), ('AttributeError', 'clausedb.py:_get_head'), ('AttributeError', 'engine_builtin.py:_build_scope'), ('AttributeError', 'engine_builtin.py:_builtin_numbervars'), ('ModuleNotFoundError', 'engine_builtin.py:_builtin_check_state'), ('ModuleNotFoundError', 'engine_builtin.py:_builtin_condition'), ('ModuleNotFoundError', 'engine_builtin.py:_builtin_reset_state'), ('ModuleNotFoundError', 'engine_builtin.py:_builtin_set_state'), ('TypeError', 'engine_builtin.py:_builtin_find_scope'), ('TypeError', 'engine_builtin.py:_builtin_ge'), ('TypeError', 'engine_builtin.py:_builtin_gt'), ('TypeError', 'engine_builtin.py:_builtin_le'), ('TypeError', 'engine_builtin.py:_builtin_lt'), ('TypeError', 'engine_builtin.py:_builtin_try_calln'), ('TypeError', 'logic.py:with_args'), ('ValueError', 'logic.py:term2list')]
+known("KF28-builtins-raise-internal-exceptions-on-ill-typed-arguments", ["C27"],
+      "ill-typed or ill-moded calls of some builtins escape as internal Python exceptions instead of ProbLogError subclasses: arithmetic comparison of a number with a string (TypeError in _builtin_lt/le/gt/ge), a conjunction (a,b) passed to call/N, =../2, try_call/N (And.__init__ TypeError in Term.with_args), findall/all with a non-callable goal (AttributeError in ClauseDB._compile / _get_head), call_in_scope / find_scope with unbound or non-list scopes, numbervars/2,3 on an unbound variable, and the state builtins set_state/reset_state/check_state/condition (ModuleNotFoundError: absolute import of engine_stack; after fixing the import reset_state fails in Context())",
+      "t :- 0 < \"s\". query(t).   t :- call((a,b), 1). query(t).   t :- findall(-1, [1,2], _). query(t).   t :- check_state(X). query(t).",
+      match_any=[{"clause": "crash", "error": e, "site": st} for (e, st) in C27_SITES])
+PR_CL = ["round-trip-changes-term", "printed-text-does-not-parse", "parsed-term-differs-from-ast"]
+known("KF29-printer-prefix-operators", ["C17"],
+      "the term printer does not parenthesise applications of prefix operators (\\+, -, \\): '\\+(a)>>b' is printed for (\\+a)>>b and re-parsed as \\+(a>>b); '-[a]' / '\\[a]' are printed for -([a]) and are not valid text; -(1) is read as the number -1",
+      "Term.from_string('(\\+ (a)) >> b') prints as '\\+(a)>>b', which parses as '\\+'('>>'(a,b))",
+      match_any=[{"clause": c, "prefix_operator": True} for c in PR_CL])
+known("KF30-printer-control-operators-as-operands", ["C17"],
+      "the term printer does not parenthesise ;, -> and , when they are operands of another operator, arguments of a compound or list elements: f(a ; b) is printed 'f(a; b)' (rejected by the parser), (b ; X) =:= Y is printed 'b; X=:=Y'",
+      "Term.from_string(\"f(('A b' ; b), c)\") prints as \"f('A b'; b,c)\" -> ParseError",
+      match_any=[{"clause": c, "control_operator_nested": True} for c in PR_CL])
+known("KF31-printer-parser-power-operator", ["C17"],
+      "x^y (and **) next to an operator of lower binding strength does not round-trip: (V1 ^ a) << b is printed 'V1^a<<b' and re-parsed as V1 ^ (a << b)",
+      "Term.from_string('(V1 ^ a) << [a]') -> 'V1^a<<[a]' -> '^'(V1, '<<'(a,[a]))",
+      match_any=[{"clause": c, "power_operator": True} for c in PR_CL])
+fixed("FX22-parser-indexerror-sharp-open", ["C17", "C27"], "842652f", "parsing 'a < .' raised IndexError in PrologParser.collapse instead of a ParseError", "list(PrologString('a < .'))")
 fixed("FX1-break-cycles-true-child", ["C01", "C09"], "29bdee9",
       "AssertionError in LogicFormula.get_node(0) from _break_cycles when a disjunction below an evidence node contains the TRUE node",
       "0.1::h(c1). d(c1). d(c2). p(X) :- d(X), r(c1). p(Y) :- d(Y). r(X) :- p(X). r(Y) :- d(Y), h(X). query(p(c1)). evidence(r(c1)).")
